@@ -14,6 +14,7 @@ import PdfVerif.Lemmas.Labels
 import PdfVerif.Lemmas.LabelRanges
 import PdfVerif.Lemmas.LabelsExtra
 import PdfVerif.Lemmas.Outline
+import PdfVerif.Lemmas.OutlineGraph
 import PdfVerif.Lemmas.NameTree
 
 namespace PdfVerif.Props.C17
@@ -375,6 +376,40 @@ example :
   decide +kernel
 
 end Outline
+
+/-! ### Outlines as object graphs: termination (fix 331cdea keeps a visited set) -/
+
+section OutlineGraph
+open PdfVerif.Outline PdfVerif.OutlineGraph PdfVerif.Lemmas.OutlineGraph
+
+/-- **Termination.** On EVERY finite store of outline dictionaries — First/Next links that
+dangle, are shared, point back to an ancestor or to the item itself — the walk with the visited
+set never exhausts the budget `|store| + 1`, and no object id is visited twice (so every
+dictionary contributes at most one item). -/
+theorem C17_outline_terminates (g : Store) (root : Nat) :
+    ∃ items vis, searchG g (g.length + 1) [] root 0 = some (items, vis) ∧ vis.Nodup := by
+  have hu : unvisited g [] < g.length + 1 := by
+    unfold unvisited
+    exact Nat.lt_succ_of_le (List.length_filter_le _ _)
+  obtain ⟨items, vis, h, _, hn⟩ := searchG_total g (g.length + 1) [] root 0 hu
+  exact ⟨items, vis, h, hn List.nodup_nil⟩
+
+theorem C17_outline_graph_total (g : Store) (root : Nat) : (getOutlinesG g root).isSome = true := by
+  obtain ⟨items, vis, h, _⟩ := C17_outline_terminates g root
+  simp [getOutlinesG, h]
+
+/-- A damaged outline: item 2 has itself as `Next`, item 3's `First` points back to the root,
+item 4 hangs off a dangling reference.  The walk ends and lists each reachable item once. -/
+example :
+    let g : Store :=
+      [(1, { info := {}, first := some 2, hasLast := true }),
+       (2, { info := { title := some [65], dest := some 7 }, first := some 3, hasLast := true, next := some 2 }),
+       (3, { info := { title := some [66], a := some 8 }, first := some 1, hasLast := true, next := some 9 }),
+       (4, { info := { title := some [67], dest := some 9 } })]
+    getOutlinesG g 1 = some [⟨1, [65], some 7, none, none⟩, ⟨2, [66], none, some 8, none⟩] := by
+  decide +kernel
+
+end OutlineGraph
 
 /-! ## Name trees and named destinations (ISO 32000-1 7.9.6, 12.3.2.3) -/
 
